@@ -192,7 +192,15 @@ def judge(ns, ctx, case):
                     c = ns.coord.CoordGeo(la, lo, h).cart(ell)
                 x, y, z = c.xaxis, c.yaxis, c.zaxis
             else:
-                x, y, z = ns.convert.llh2xyz(la, lo, h, ell)
+                rep, shape = core.delivery_of(case)
+                if argt != 'float':
+                    rep = None
+                omit = ('ellipsoid',) if (case['ell'] == 'grs80' and shape) else ()
+                for k_, lab in ((rep, 'argument_representation:'), (shape, 'call_shape:')):
+                    if k_:
+                        ctx.count(lab + k_)
+                x, y, z = core.shaped_call(ns.convert.llh2xyz, ['lat', 'lon', 'ellht', 'ellipsoid'],
+                                           list(core.rep_values(rep, la, lo, h)) + [ell], shape, omit)
         except Exception as e:
             ctx.violation('llh2xyz:exception', case, {'exception': repr(e)})
             return
@@ -232,8 +240,14 @@ def judge_inverse(ns, ctx, case, ell, a, invf, en, x, y, z, api):
                 g = ns.coord.CoordCart(x, y, z).geo(ell, notation=float)
             lat, lon, h = g.lat, g.lon, g.ell_ht
         else:
+            rep, shape = core.delivery_of([case, 'inverse'])
+            omit = ('ellipsoid',) if (case['ell'] == 'grs80' and shape) else ()
+            for k_, lab in ((rep, 'argument_representation:'), (shape, 'call_shape:')):
+                if k_:
+                    ctx.count(lab + k_)
             with core.deadline(30):
-                lat, lon, h = ns.convert.xyz2llh(x, y, z, ell)
+                lat, lon, h = core.shaped_call(ns.convert.xyz2llh, ['x', 'y', 'z', 'ellipsoid'],
+                                               list(core.rep_values(rep, x, y, z)) + [ell], shape, omit)
     except core.DidNotReturn as e:
         HUNG.add('xyz2llh')        # circuit breaker: one witness is enough, do not wait 30 s per case
         ctx.violation('xyz2llh:did-not-return', case, {'exception': repr(e), 'xyz': [x, y, z]})
